@@ -170,3 +170,128 @@ _add(Cond('batch_apply_except', [('fail_at', 'int'), ('max_workers', 'int')], bo
         functions=['Batch._apply_pool_except', 'Batch.apply_except'],
         bounds='Batch of 3 frames, failing task index -1..2, max_workers 1..3, completion order symbolic',
         route='Batch.apply_except: the failing label is dropped, every other result stays paired with its own label', timeout=300))
+
+
+# ---------------------------------------------------------------- _StoreZip.read_many / write through worker pools
+# The REAL read_many / write of the zipped-store base class run against an in-memory stand-in for the zip archive (the
+# byte-level zip encoding is C / I/O and outside); the per-format decoding is replaced by a probe that reports which
+# label, which bytes and which per-label configuration each task was handed.  In the model world the pool is the executor
+# contract model (symbolic task order); in the real world a thread pool stands in for the process pool (same map contract).
+
+STORE_LABELS = ('a', 'b', 'c')
+
+
+def _probe_store(env):
+    from static_frame.core import store_zip as sz
+    from static_frame.core import store as store_mod
+
+    class FakeZip:
+        files = {}
+
+        def __init__(self, fp, mode='r', compression=None):
+            self.mode = mode
+            if mode == 'w':
+                FakeZip.files = {}
+
+        def __enter__(self):
+            return self
+
+        def __exit__(self, *a):
+            return False
+
+        def read(self, name):
+            return FakeZip.files[name]
+
+        def writestr(self, name, data):
+            FakeZip.files[name] = data
+
+        def namelist(self):
+            return list(FakeZip.files)
+
+    class FakeZipModule:
+        ZipFile = FakeZip
+        ZIP_DEFLATED = 8
+
+    class FakePath:
+        @staticmethod
+        def exists(fp):
+            return True
+
+        @staticmethod
+        def getmtime(fp):
+            return 1.0
+
+        @staticmethod
+        def splitext(fp):
+            import os
+            return os.path.splitext(fp)
+
+    class FakeOS:
+        path = FakePath
+
+    class ProbeStore(sz._StoreZip):
+        _EXT_CONTAINED = '.txt'
+
+        @staticmethod
+        def _EXPORTER(frame):
+            return frame
+
+        @classmethod
+        def _container_type_to_constructor(cls, container_type):
+            return str
+
+        @staticmethod
+        def _build_frame(src, name, config, constructor):
+            return (name, src, config.index_depth)
+
+        @staticmethod
+        def _payload_to_bytes(payload):
+            return payload.name, (payload.name, payload.frame, payload.config.include_index)
+    return sz, store_mod, FakeZipModule, FakeOS, FakeZip, ProbeStore
+
+
+def mk_store_zip(n_tape=4, tier='quick'):   # 3 write tasks (2 + 1 bits) and 2 read tasks (1 bit)
+    def body(env, workers, chunksize, k0, k1, **kw):
+        from vf import rt
+        workers, chunksize = concretize(workers, 0, 2), concretize(chunksize, 1, 2)
+        ks = [concretize(k0, 0, 2), concretize(k1, 0, 2)]
+        tape = [bool(kw[f'tape{i}']) for i in range(n_tape)]
+        return rt.untraced(lambda: run(env, workers, chunksize, ks, tape))
+
+    def run(env, workers, chunksize, ks, tape):
+        sf = env.sf
+        from static_frame.core.store import StoreConfig, StoreConfigMap
+        sz, store_mod, FakeZipModule, FakeOS, FakeZip, ProbeStore = _probe_store(env)
+        if env.model:
+            env.nondet.install(tape)
+        saved = (sz.zipfile, store_mod.os, sz.ProcessPoolExecutor)
+        sz.zipfile, store_mod.os = FakeZipModule, FakeOS
+        if not env.model:
+            from concurrent.futures import ThreadPoolExecutor
+            sz.ProcessPoolExecutor = ThreadPoolExecutor
+        try:
+            mw = workers if workers else None
+            default = StoreConfig(read_max_workers=mw, read_chunksize=chunksize, write_max_workers=mw, write_chunksize=chunksize)
+            cfg = StoreConfigMap({l: StoreConfig(index_depth=1 + i, include_index=(i % 2 == 0), read_max_workers=mw, read_chunksize=chunksize,
+                                                 write_max_workers=mw, write_chunksize=chunksize) for i, l in enumerate(STORE_LABELS)}, default=default)
+            st = ProbeStore('probe.zip')
+            # write: every label's payload is built with that label's config and stored under that label
+            st.write(((l, 'frame-' + l) for l in STORE_LABELS), config=cfg)
+            written = dict(FakeZip.files)
+            exp_written = {l + '.txt': (l, 'frame-' + l, i % 2 == 0) for i, l in enumerate(STORE_LABELS)}
+            # read: results in request order, each paired with the label, bytes and config of ITS label
+            labels = [STORE_LABELS[k] for k in ks]
+            got = list(st.read_many(labels, config=cfg))
+            exp = [(l, exp_written[l + '.txt'], 1 + STORE_LABELS.index(l)) for l in labels]
+            return [env.obs(sorted(written)), [written[k] for k in sorted(written)], got], [sorted(exp_written), [exp_written[k] for k in sorted(exp_written)], exp]
+        finally:
+            sz.zipfile, store_mod.os, sz.ProcessPoolExecutor = saved
+    return Cond('store_zip_read_many_write_workers', [('workers', 'int'), ('chunksize', 'int'), ('k0', 'int'), ('k1', 'int')], body, tape=n_tape,
+            ranges={'workers': (0, 2), 'chunksize': (1, 2), 'k0': (0, 2), 'k1': (0, 2)},
+            pre=['workers > 0 or not (' + ' or '.join(f'tape{i}' for i in range(n_tape)) + ')'],
+            functions=['_StoreZip.read_many', '_StoreZip.write', '_StoreZip._payload_to_frame'],
+            bounds=f'zipped-store base class over an in-memory archive of 3 labels with per-label configs; read/write max_workers None or 1..2, chunksize 1..2, 2 requested labels (any order, repeats allowed), task order symbolic ({n_tape} tape Booleans)',
+            route='_StoreZip.write / read_many with and without worker pools: every label stored / returned with its own bytes and its own per-label configuration, in request order', tier=tier, timeout=400)
+
+
+_add(mk_store_zip())
